@@ -333,11 +333,32 @@ def check_zero_com(ctx, md, rid):
               "angular momentum and inertia tensor are built from r_rel", "angular momentum / inertia tensor no longer use COM-relative positions")
     # KE restoration: alpha = sqrt(Ek_initial/Ek_after), Ek_initial before any mutation, Ek_after after all
     muts = [n.id for n in g.nodes if n.kind == "stmt" and any(a == "velocities" and h in ("sub_", "add_") for a, h, _ in mutated_phase_attr(n.stmt))]
-    e0 = [n.id for n in g.nodes if n.kind == "stmt" and isinstance(n.stmt, ast.Assign) and norm(n.stmt.targets[0]) == "Ek_initial"]
-    e1 = [n.id for n in g.nodes if n.kind == "stmt" and isinstance(n.stmt, ast.Assign) and norm(n.stmt.targets[0]) == "Ek_after"]
-    al = [n for n in g.nodes if n.kind == "stmt" and isinstance(n.stmt, ast.Assign) and norm(n.stmt.targets[0]) == "alpha"]
-    ok = bool(muts and e0 and e1 and al) and all(mu in g.reachable(e0[0]) and e1[0] in g.reachable(mu) for mu in muts) \
-        and norm(al[0].stmt.value).replace(" ", "") == "torch.sqrt(Ek_initial/Ek_after)" \
+    # located structurally: the velocity rescale `velocities.mul_(A...)`, A = sqrt(N / D), N and D kinetic-energy measurements
+    ke_nodes = {}
+    for n in g.nodes:
+        if n.kind == "stmt" and isinstance(n.stmt, ast.Assign) and isinstance(n.stmt.targets[0], ast.Name) and isinstance(n.stmt.value, ast.Call) \
+                and callee_attr(n.stmt.value) == "_kinetic_energy":
+            ke_nodes[n.stmt.targets[0].id] = n.id
+    al = []
+    num = den = None
+    for n in g.nodes:
+        if n.kind == "stmt" and isinstance(n.stmt, ast.Assign) and isinstance(n.stmt.targets[0], ast.Name) and isinstance(n.stmt.value, ast.Call) \
+                and (call_name(n.stmt.value) or "") == "torch.sqrt" and n.stmt.value.args and isinstance(n.stmt.value.args[0], ast.BinOp) \
+                and isinstance(n.stmt.value.args[0].op, ast.Div):
+            q = n.stmt.value.args[0]
+            if isinstance(q.left, ast.Name) and isinstance(q.right, ast.Name) and q.left.id in ke_nodes and q.right.id in ke_nodes:
+                al.append(n)
+                num, den = q.left.id, q.right.id
+    scale_used = False
+    if al:
+        aname = al[0].stmt.targets[0].id
+        for n in g.nodes:
+            if n.kind == "stmt" and any(a == "velocities" and h == "mul_" for a, h, _ in mutated_phase_attr(n.stmt)) and aname in {x.id for x in ast.walk(n.stmt) if isinstance(x, ast.Name)}:
+                scale_used = al[0].id in g.reachable(ke_nodes[den]) and n.id in g.reachable(al[0].id)
+    e0 = [ke_nodes[num]] if num else []
+    e1 = [ke_nodes[den]] if den else []
+    ok = bool(muts and e0 and e1 and al and scale_used) and all(mu in g.reachable(e0[0]) and e1[0] in g.reachable(mu) for mu in muts) \
+        and not any(e0[0] in g.reachable(mu) for mu in muts) \
         and any(p and norm(a) == "restore_kinetic_energy" for a, p, _ in controlling(md, al[0].stmt))
     ctx.check(bool(ok), rid, md, zc, "Molecular_Dynamics_Basic._zero_com", "alpha = sqrt(Ek_initial / Ek_after)",
               "kinetic energy measured before and after the projection, velocities rescaled by sqrt(Ek_initial/Ek_after)",
